@@ -210,6 +210,21 @@ _BLOCKS = {ast.If: ("body", "orelse"), ast.For: ("body", "orelse"), ast.AsyncFor
 _HEADERS = {ast.If: ("test",), ast.While: ("test",), ast.For: ("target", "iter"), ast.AsyncFor: ("target", "iter")}
 
 
+def _other_conditional_form(st):
+    """`x = a if c else b`  <->  `if c: x = a` / `else: x = b` (x a plain name): the other form of the statement, or None"""
+    if isinstance(st, ast.Assign) and len(st.targets) == 1 and isinstance(st.targets[0], ast.Name) and isinstance(st.value, ast.IfExp):
+        v = st.value
+        mk = lambda e: ast.Assign(targets=[ast.Name(id=st.targets[0].id, ctx=ast.Store())], value=e, lineno=st.lineno)
+        return ast.fix_missing_locations(ast.If(test=v.test, body=[mk(v.body)], orelse=[mk(v.orelse)], lineno=st.lineno, col_offset=0))
+    if isinstance(st, ast.If) and len(st.body) == 1 and len(st.orelse) == 1:
+        a, b = st.body[0], st.orelse[0]
+        if isinstance(a, ast.Assign) and isinstance(b, ast.Assign) and len(a.targets) == 1 and len(b.targets) == 1 and isinstance(a.targets[0], ast.Name) and \
+                isinstance(b.targets[0], ast.Name) and a.targets[0].id == b.targets[0].id:
+            return ast.fix_missing_locations(ast.Assign(targets=[ast.Name(id=a.targets[0].id, ctx=ast.Store())], value=ast.IfExp(test=st.test, body=a.value, orelse=b.value),
+                                                        lineno=st.lineno, col_offset=0))
+    return None
+
+
 class _Aligner:
     def __init__(self):
         self.n = 0
@@ -227,6 +242,10 @@ class _Aligner:
         if isinstance(cur, (ast.FunctionDef, ast.AsyncFunctionDef, ast.ClassDef)):
             return cur if type(cur) is type(ref) and cur.name == ref.name else None
         if self.same(cur, ref):
+            self.n += 1
+            return _relocate(ref, cur)
+        alt = _other_conditional_form(cur)
+        if alt is not None and type(alt) is type(ref) and self.same(alt, ref):
             self.n += 1
             return _relocate(ref, cur)
         if type(cur) is type(ref) and type(cur) in _BLOCKS:
